@@ -1,4 +1,415 @@
 package main
 
-func cmdCheck(args []string) int    { return 2 }
-func cmdSelftest(args []string) int { return 2 }
+import (
+	"encoding/json"
+	"flag"
+	"fmt"
+	"os"
+	"path/filepath"
+	"sort"
+	"strconv"
+	"strings"
+	"time"
+)
+
+// PropConfig describes how one property is decided.
+type PropConfig struct {
+	ID          string   `json:"id"`
+	Packages    []string `json:"packages"`
+	Functions   []string `json:"functions"`
+	Structural  []string `json:"structural"`
+	Assumptions []string `json:"assumptions"`
+	Bounded     []string `json:"bounded"`
+}
+
+type Finding struct {
+	Kind     string // finding | fixed
+	Property string
+	Obl      string
+	Text     string
+}
+
+func loadProps() (map[string]*PropConfig, error) {
+	b, err := os.ReadFile(filepath.Join(verifRoot(), "props.json"))
+	if err != nil {
+		return nil, err
+	}
+	var ps []*PropConfig
+	if err := json.Unmarshal(b, &ps); err != nil {
+		return nil, err
+	}
+	m := map[string]*PropConfig{}
+	for _, p := range ps {
+		m[p.ID] = p
+	}
+	return m, nil
+}
+
+// known_findings.txt lines:  finding: property=C20 obligation=<name> :: <what fails>
+//                            fixed: property=C20 <commit> <what failed>
+func loadFindings() []Finding {
+	b, err := os.ReadFile(filepath.Join(verifRoot(), "known_findings.txt"))
+	if err != nil {
+		return nil
+	}
+	var out []Finding
+	for _, l := range strings.Split(string(b), "\n") {
+		l = strings.TrimSpace(l)
+		if l == "" || strings.HasPrefix(l, "#") {
+			continue
+		}
+		if strings.HasPrefix(l, "finding:") {
+			rest := strings.TrimSpace(strings.TrimPrefix(l, "finding:"))
+			f := Finding{Kind: "finding"}
+			parts := strings.SplitN(rest, " :: ", 2)
+			if len(parts) == 2 {
+				f.Text = parts[1]
+			}
+			head := parts[0]
+			if i := strings.Index(head, "property="); i >= 0 {
+				f.Property = strings.Fields(head[i+9:])[0]
+			}
+			if i := strings.Index(head, "obligation="); i >= 0 {
+				f.Obl = strings.TrimSpace(head[i+11:])
+			}
+			out = append(out, f)
+		} else if strings.HasPrefix(l, "fixed:") {
+			out = append(out, Finding{Kind: "fixed", Text: l})
+		}
+	}
+	return out
+}
+
+type evObl struct {
+	Name    string  `json:"name"`
+	Kind    string  `json:"kind"`
+	Status  string  `json:"status"`
+	Solver  string  `json:"solver"`
+	Seconds float64 `json:"seconds"`
+}
+
+type runSummary struct {
+	required    int
+	discharged  int
+	advisoryUn  []string
+	failures    []*OblResult
+	failFuncs   map[*OblResult]string
+	engineErrs  []string
+	known       []string
+	funcs       []string
+	obls        []evObl
+	notes       map[string]bool
+	solverTime  float64
+	bySolver    map[string]int
+	samples     []map[string]string
+	vacuous     []string
+	loops       int
+	maxVC       int
+	coverChecks int
+}
+
+func runProperty(e *Engine, pc *PropConfig, findings []Finding) *runSummary {
+	rs := &runSummary{notes: map[string]bool{}, bySolver: map[string]int{}, failFuncs: map[*OblResult]string{}}
+	sem := make(chan struct{}, 16)
+	type out struct {
+		i  int
+		fr *FuncResult
+	}
+	frs := make([]*FuncResult, len(pc.Functions))
+	ch := make(chan out)
+	for i, f := range pc.Functions {
+		go func(i int, f string) {
+			if e.cons.Funcs[f] == nil {
+				ch <- out{i, &FuncResult{Key: f, Errors: []string{"no contract found for " + f}}}
+				return
+			}
+			ch <- out{i, e.verifyFunc(f, sem)}
+		}(i, f)
+	}
+	for range pc.Functions {
+		o := <-ch
+		frs[o.i] = o.fr
+	}
+	for _, ce := range e.cons.Errors {
+		rs.engineErrs = append(rs.engineErrs, "contract file: "+ce)
+	}
+	knownSet := map[string]Finding{}
+	for _, f := range findings {
+		if f.Kind == "finding" && f.Property == pc.ID {
+			knownSet[f.Obl] = f
+		}
+	}
+	for _, fr := range frs {
+		rs.funcs = append(rs.funcs, fr.Key)
+		rs.loops += fr.Loops
+		if fr.VCBytes > rs.maxVC {
+			rs.maxVC = fr.VCBytes
+		}
+		for _, er := range fr.Errors {
+			rs.engineErrs = append(rs.engineErrs, fr.Key+": "+er)
+		}
+		for _, n := range fr.Notes {
+			rs.notes[n] = true
+		}
+		for _, r := range fr.Results {
+			if r == nil {
+				continue
+			}
+			rs.solverTime += r.Seconds
+			o := r.Obl
+			if o.Cover {
+				rs.coverChecks++
+				if r.Status == "cover-vacuous" {
+					rs.vacuous = append(rs.vacuous, o.Name)
+				}
+				continue
+			}
+			rs.obls = append(rs.obls, evObl{o.Name, o.Kind, r.Status, r.Solver, r.Seconds})
+			if !o.Required {
+				if r.Status != "discharged" {
+					rs.advisoryUn = append(rs.advisoryUn, o.Name)
+				}
+				continue
+			}
+			if kf, ok := knownSet[o.Name]; ok {
+				if r.Status != "discharged" {
+					rs.known = append(rs.known, fmt.Sprintf("%s %s", o.Name, kf.Text))
+				} else {
+					rs.notes["known finding no longer fails: "+o.Name] = true
+					rs.required++
+					rs.discharged++
+				}
+				continue
+			}
+			rs.required++
+			if r.Status == "discharged" {
+				rs.discharged++
+				rs.bySolver[r.Solver]++
+				if len(rs.samples) < 6 && r.Solver != "trivial" {
+					rs.samples = append(rs.samples, map[string]string{"obligation": o.Name, "goal": clip(o.Goal, 600), "path_guard": clip(o.Guard, 200), "solver": r.Solver})
+				}
+			} else {
+				rs.failures = append(rs.failures, r)
+				rs.failFuncs[r] = fr.Key
+			}
+		}
+	}
+	return rs
+}
+
+func clip(s string, n int) string {
+	if len(s) > n {
+		return s[:n] + "…"
+	}
+	return s
+}
+
+func cmdCheck(args []string) int {
+	start := time.Now()
+	fs := flag.NewFlagSet("check", flag.ExitOnError)
+	repo := fs.String("repo", "/repo", "repository")
+	tier := fs.String("tier", "", "quick|thorough")
+	noEvidence := fs.Bool("no-evidence", false, "do not write the evidence file")
+	if len(args) < 1 {
+		fmt.Fprintln(os.Stderr, "usage: govc check <ID> [--tier quick|thorough]")
+		return 2
+	}
+	id := args[0]
+	fs.Parse(args[1:])
+	if *tier == "" {
+		*tier = os.Getenv("VERIF_TIER")
+	}
+	if *tier == "" {
+		*tier = "quick"
+	}
+	seed := 0
+	if s := os.Getenv("VERIF_SEED"); s != "" {
+		seed, _ = strconv.Atoi(s)
+	}
+	props, err := loadProps()
+	if err != nil {
+		fmt.Fprintln(os.Stderr, "props.json:", err)
+		return 2
+	}
+	pc := props[id]
+	if pc == nil {
+		fmt.Fprintln(os.Stderr, "unknown property", id)
+		return 2
+	}
+	root := verifRoot()
+	replayDir := filepath.Join(root, "replays", id)
+	os.RemoveAll(replayDir)
+	os.MkdirAll(replayDir, 0o755)
+	fail := func(name, body string, n int) {
+		p := filepath.Join(replayDir, fmt.Sprintf("violation_%d.txt", n))
+		os.WriteFile(p, []byte(body), 0o644)
+		fmt.Printf("VIOLATION property=%s replay=%s obligation=%q no-failing-input-found\n", id, p, name)
+	}
+	e, err := loadEngine(*repo, pc.Packages, nil, stdSpecFiles())
+	if err != nil {
+		// the tree does not load: nothing can be decided
+		fail("load", "the repository packages could not be loaded with -tags verif:\n"+err.Error(), 1)
+		writeEvidence(root, id, *tier, seed, nil, pc, time.Since(start).Seconds(), 1, e)
+		return 1
+	}
+	e.timeout = 10 * time.Second
+	if *tier == "thorough" {
+		e.timeout = 60 * time.Second
+	}
+	wd, _ := os.MkdirTemp("", "govc-"+id)
+	e.workdir = wd
+	defer os.RemoveAll(wd)
+	findings := loadFindings()
+	rs := runProperty(e, pc, findings)
+	// structural checks
+	for _, sc := range pc.Structural {
+		ok, detail := e.structural(sc)
+		rs.required++
+		name := "structural:" + sc
+		known := false
+		for _, f := range findings {
+			if f.Kind == "finding" && f.Property == id && f.Obl == name {
+				known = true
+				if !ok {
+					rs.known = append(rs.known, name+" "+f.Text)
+				}
+			}
+		}
+		if known {
+			rs.required--
+			continue
+		}
+		rs.obls = append(rs.obls, evObl{name, "structural", map[bool]string{true: "discharged", false: "failed"}[ok], "ssa-scan", 0})
+		if ok {
+			rs.discharged++
+			rs.bySolver["ssa-scan"]++
+		} else {
+			rs.failures = append(rs.failures, &OblResult{Obl: &Obl{Name: name, Kind: "structural"}, Status: "failed", Raw: detail, Solver: "ssa-scan"})
+		}
+	}
+	violations := 0
+	for _, k := range rs.known {
+		fmt.Printf("KNOWN-FINDING: property=%s %s\n", id, k)
+	}
+	n := 0
+	for _, er := range rs.engineErrs {
+		n++
+		violations++
+		fail("engine:"+er, "The obligations of this property could not be generated from the current tree:\n"+er+"\n", n)
+	}
+	for _, v := range rs.vacuous {
+		n++
+		violations++
+		fail(v, "vacuity: the assumptions at this point are contradictory (cover unsat): "+v+"\n", n)
+	}
+	for _, r := range rs.failures {
+		n++
+		violations++
+		body := fmt.Sprintf("property: %s\nobligation: %s\nkind: %s\nstatus: %s (solver %s, %.2fs)\nfunction: %s\nsource: %s\n\ngoal:\n%s\n\npath guard:\n%s\n\nsolver output:\n%s\n",
+			id, r.Obl.Name, r.Obl.Kind, r.Status, r.Solver, r.Seconds, rs.failFuncs[r], r.Obl.Text, r.Obl.Goal, r.Obl.Guard, clip(r.Raw, 20000))
+		p := filepath.Join(replayDir, fmt.Sprintf("violation_%d.txt", n))
+		if r.Query != "" {
+			if qb, err := os.ReadFile(r.Query); err == nil {
+				os.WriteFile(filepath.Join(replayDir, fmt.Sprintf("violation_%d.smt2", n)), qb, 0o644)
+				body += fmt.Sprintf("\nquery: %s\n", filepath.Join(replayDir, fmt.Sprintf("violation_%d.smt2", n)))
+			}
+		}
+		replayed := false
+		if r.Status == "failed" && r.Model != "" {
+			if res := e.tryReplay(rs.failFuncs[r], r, replayDir, n); res != "" {
+				body += "\nreplay against the real code:\n" + res + "\n"
+				replayed = strings.Contains(res, "REPRODUCED")
+			}
+		}
+		os.WriteFile(p, []byte(body), 0o644)
+		if replayed {
+			fmt.Printf("VIOLATION property=%s replay=%s obligation=%q\n", id, p, r.Obl.Name)
+		} else {
+			fmt.Printf("VIOLATION property=%s replay=%s obligation=%q no-failing-input-found\n", id, p, r.Obl.Name)
+		}
+	}
+	if rs.required == 0 {
+		n++
+		violations++
+		fail("no-obligations", "vacuity: the check generated no required obligation", n)
+	}
+	wall := time.Since(start).Seconds()
+	if !*noEvidence {
+		writeEvidenceRS(root, id, *tier, seed, rs, pc, wall, violations, e)
+	}
+	fmt.Printf("%s: %d/%d required obligations discharged, %d known findings, %d advisory undecided, %d violations, %.1fs\n", id, rs.discharged, rs.required, len(rs.known), len(rs.advisoryUn), violations, wall)
+	if violations > 0 {
+		return 1
+	}
+	return 0
+}
+
+func writeEvidence(root, id, tier string, seed int, rs *runSummary, pc *PropConfig, wall float64, violations int, e *Engine) {
+	writeEvidenceRS(root, id, tier, seed, &runSummary{notes: map[string]bool{}, bySolver: map[string]int{}}, pc, wall, violations, e)
+}
+
+func writeEvidenceRS(root, id, tier string, seed int, rs *runSummary, pc *PropConfig, wall float64, violations int, e *Engine) {
+	var notes []string
+	for n := range rs.notes {
+		notes = append(notes, n)
+	}
+	sort.Strings(notes)
+	trusted := []string{
+		"govc VC generator (SSA -> SMT translation), go/ssa, go/types",
+		"SMT solvers z3 5.1.0 (z3-new), z3 4.8.12, cvc5 1.0.3: an obligation is discharged when one of them answers unsat",
+		"encoding: int/int64 as mathematical integers with explicit 64-bit wrap on + - * conversions; float64 uninterpreted; strings as uninterpreted sort with len/at; per-field Burstall heap; pointers never dangle",
+	}
+	var usedTrusted []string
+	if e != nil && e.cons != nil {
+		for k, c := range e.cons.Funcs {
+			if c.Trusted && c.Used {
+				usedTrusted = append(usedTrusted, "trusted contract: "+k)
+			}
+		}
+		for _, a := range e.cons.Axioms {
+			if !a.Lemma {
+				usedTrusted = append(usedTrusted, "axiom: "+a.Name)
+			}
+		}
+	}
+	sort.Strings(usedTrusted)
+	assumptions := append([]string{}, pc.Assumptions...)
+	assumptions = append(assumptions, usedTrusted...)
+	assumptions = append(assumptions, notes...)
+	cov := map[string]any{
+		"obligations":              rs.required,
+		"discharged":               rs.discharged,
+		"checker_cmd":              fmt.Sprintf("/verif/bin/govc check %s --tier %s", id, tier),
+		"trusted_base":             trusted,
+		"functions_under_contract": rs.funcs,
+		"loops_with_cut_points":    rs.loops,
+		"known_findings":           rs.known,
+		"undecided_advisory":       rs.advisoryUn,
+		"discharged_by_backend":    rs.bySolver,
+		"solver_seconds_total":     rs.solverTime,
+		"vacuity_covers_checked":   rs.coverChecks,
+		"max_vc_bytes":             rs.maxVC,
+		"bounded_standins":         pc.Bounded,
+		"samples":                  rs.samples,
+		"per_obligation":           rs.obls,
+		"engine_errors":            rs.engineErrs,
+	}
+	if len(rs.samples) == 0 {
+		cov["samples"] = []string{"(no solver-discharged obligation in this run)"}
+	}
+	ev := map[string]any{
+		"property_id": id,
+		"tier":        tier,
+		"seed":        seed,
+		"level":       "proof",
+		"coverage":    cov,
+		"assumptions": assumptions,
+		"wall_s":      wall,
+		"violations":  violations,
+	}
+	b, _ := json.MarshalIndent(ev, "", " ")
+	os.MkdirAll(filepath.Join(root, "evidence"), 0o755)
+	os.WriteFile(filepath.Join(root, "evidence", id+".json"), b, 0o644)
+}
+
+func cmdSelftest(args []string) int { return selftest(args) }
